@@ -145,6 +145,7 @@ type Explorer struct {
 	waitGroups map[*value]int64
 	tickers    []*tickerState
 	syncVC     map[syncKey]vclock
+	pools      map[*value][]value
 	raceSeen   map[string]bool
 	probe    *Witness
 }
